@@ -83,6 +83,9 @@ type c05Hist struct {
 	// the cache is bounded and full from the start (Capacity = number of preloaded certificates); no event
 	// that would add a certificate beyond that (manage) is carried out
 	Bounded bool `json:"bounded,omitempty"`
+	// name 0 is the wildcard *.u.example and name 1 is www.u.example, which it covers (managing a name is about
+	// exactly that subject: wildcard coverage plays no part)
+	Wild bool `json:"wild,omitempty"`
 }
 
 type c05Obs struct {
@@ -219,7 +222,8 @@ func (w *c05World) nameIndex(s string) int {
 // nameInKey finds which universe name an operation's key talks about.
 func (w *c05World) nameInKey(key string) int {
 	for i, n := range w.names {
-		if strings.Contains(key, n) {
+		// storage keys carry the sanitized form of a wildcard name
+		if strings.Contains(key, n) || (strings.HasPrefix(n, "*") && strings.Contains(key, "wildcard_"+n[1:])) {
 			return i
 		}
 	}
@@ -358,7 +362,14 @@ func c05NewWorld(h *c05Hist) *c05World {
 		jobs: make([][]*c05Job, h.K), failing: [2][]bool{make([]bool, h.K), make([]bool, h.K)}, passOf: map[int64]*c05Pass{}, passes: map[int]*c05Pass{},
 		nowRef: time.Now(), idue: h.IDue, ocspG: map[int64]bool{}, hashOf: map[int]string{}}
 	for i := 0; i < h.K; i++ {
-		w.names = append(w.names, fmt.Sprintf("n%d.example", i))
+		switch {
+		case h.Wild && i == 0:
+			w.names = append(w.names, "*.u.example")
+		case h.Wild && i == 1:
+			w.names = append(w.names, "www.u.example")
+		default:
+			w.names = append(w.names, fmt.Sprintf("n%d.example", i))
+		}
 	}
 	w.ctx, w.stop = context.WithCancel(context.Background())
 	w.iss = &doubles.IssuerDouble{Key: c05IssuerKeys[0], CA: w.ca, Log: w.be.Log, Inst: "i1", Backdate: time.Hour}
@@ -1526,6 +1537,9 @@ func c05Emit(w *emit.Writer, class string, res *c05Result) {
 	if h.Bounded {
 		w.Hist("cache=bounded-and-full")
 	}
+	if h.Wild {
+		w.Hist("names=wildcard-and-covered-name")
+	}
 	for _, c := range h.Certs {
 		switch {
 		case c.Ari:
@@ -1888,6 +1902,29 @@ func c05Scenarios() []c05Scenario {
 				c05Cat(one(c05Ev("issuer", 0, 1)), start, c05Rep(c05Ev("job", 0), 3), pass(1), c05Rep(c05Ev("job", 1), 4), pass(2), one(c05Ev("job", 0)), pass(3))})
 		}
 	}
+	// a managed wildcard certificate and a name it covers in one cache: managing the covered name is about exactly that
+	// subject — its stored certificate is loaded, obtained when none exists, renewed when due, whatever the wildcard does
+	for _, stored := range []int{0, 2, 3} { // the covered name: nothing stored / fresh / due
+		for _, async := range []int{0, 1} {
+			for _, wcached := range []int{1, 2} { // the wildcard certificate: fresh / due
+				for _, idue := range []bool{false, true} {
+					if idue && stored == 2 {
+						continue
+					}
+					mk := func(inits []c05NameInit) *c05Hist { h := c05Build(inits, idue); h.Wild = true; return h }
+					// wildcard managed first (cached), then the covered name
+					out = append(out, c05Scenario{"wildcard-then-covered-name", mk([]c05NameInit{{cached: wcached, stored: 1}, {stored: stored}, {cached: 1, stored: 1}}),
+						c05Cat(one(c05Ev("manage", 1, async)), c05Rep(c05Ev("job", 1), 3), pass(0), drain(0), drain(1), one(c05Ev("manage", 1, async)), pass(1))})
+					// both managed by calls, wildcard first
+					out = append(out, c05Scenario{"wildcard-managed-then-covered-name", mk([]c05NameInit{{stored: 3 - wcached + 1}, {stored: stored}}),
+						c05Cat(one(c05Ev("manage", 0, async)), c05Rep(c05Ev("job", 0), 3), one(c05Ev("manage", 1, async)), c05Rep(c05Ev("job", 1), 3), pass(0), drain(0), drain(1), pass(1))})
+					// covered name first, wildcard second
+					out = append(out, c05Scenario{"covered-name-then-wildcard", mk([]c05NameInit{{stored: stored}, {cached: wcached, stored: 1}}),
+						c05Cat(one(c05Ev("manage", 0, async)), c05Rep(c05Ev("job", 0), 3), pass(0), drain(0), drain(1), pass(1))})
+				}
+			}
+		}
+	}
 	// ManageAsync twice for a name with nothing in storage: two unnamed obtain jobs, one Issue
 	for _, fail := range []int{0, 1} {
 		for _, idue := range []bool{false, true} {
@@ -2039,7 +2076,9 @@ func c05RandomInit(r *rand.Rand, maxNames int) *c05Hist {
 	}
 	// (bounded caches only in scripted histories: a random one can legitimately overflow — a job reloading for a
 	// certificate that has left the cache adds without removing — and then evicts a random certificate)
-	return c05Build(inits, r.Intn(5) == 0)
+	h := c05Build(inits, r.Intn(5) == 0)
+	h.Wild = k >= 2 && r.Intn(3) == 0
+	return h
 }
 
 func c05Oracles(w *emit.Writer) {
